@@ -36,7 +36,11 @@ TMP = c01.TMP
 
 KEYS = ["k", "grp", "n", "taxonomy", "new1", "new2"]
 VALS = st.one_of(st.sampled_from(["a", "b", "", "zz"]), st.integers(-3, 3),
-                 st.lists(st.sampled_from(["k__x", "p__y"]), max_size=2))
+                 st.lists(st.sampled_from(["k__x", "p__y"]), max_size=2),
+                 # nested mappings are values like any other: replaced, not
+                 # merged, when the key is set again
+                 st.dictionaries(st.sampled_from(["a", "b", "c"]),
+                                 st.integers(0, 3), max_size=2))
 
 
 @st.composite
@@ -52,6 +56,13 @@ def api_case(draw, tier):
                 for k in list(m):
                     if draw(st.integers(0, 2)) == 0:
                         del m[k]
+    if what == "add" and draw(st.sampled_from([False, False, True])):
+        # some existing values are nested mappings
+        for key in ("obs_md", "samp_md"):
+            for m in spec[key] or []:
+                for k in list(m):
+                    if draw(st.integers(0, 2)) == 0:
+                        m[k] = {"z": 9, "a": 0}
     if what == "del" and draw(st.booleans()):
         # the first ID lacks a key the others carry (the state a partial
         # add_metadata leaves behind)
@@ -445,6 +456,18 @@ def check_file(case, rec):
             args += ["--sample-header" if axis == "sample" else
                      "--observation-header",
                      ",".join(case["header_override"])]
+        both = how == "cli_json" and len(case["rows"]) % 2 == 0
+        if both:
+            # a mapping file for the other axis in the same call
+            o_ids = ["o0", "o1", "o2"] if axis == "sample" else \
+                ["s0", "s1", "s2", "s3"]
+            mp2 = os.path.join(d, "map-other.txt")
+            with open(mp2, "w", encoding="utf8") as f:
+                f.write("#ID\tExtra\n" + "".join(
+                    "%s\te-%s\n" % (i, i) for i in o_ids))
+            args += ["--observation-metadata-fp", mp2] if axis == "sample" \
+                else ["-m", mp2]
+            rec.cls("cli:both-mapping-files")
         if how == "cli_json":
             args.append("--output-as-json")
         if any("," in c for c in case["cols"]):
@@ -466,7 +489,12 @@ def check_file(case, rec):
     other = r["obs_md"] if axis == "sample" else r["samp_md"]
     if not observe.md_equal(have, exp):
         bad("cli-metadata", "%s metadata %r, expected %r" % (axis, have, exp))
-    if other is not None:
+    if both:
+        want_other = [{"Extra": "e-%s" % i} for i in o_ids]
+        if not observe.md_equal(other, want_other):
+            bad("cli-metadata", "the other axis (second mapping file) has "
+                "metadata %r, expected %r" % (other, want_other))
+    elif other is not None:
         bad("cli-metadata", "other axis got metadata %r" % (other,))
     in_both = [i for i in t_ids if i in want]
     rec.nt(0 < len(in_both) and len(want) > len(in_both) or
